@@ -39,9 +39,19 @@ theorem write_stores_prefix_image (v : Bool) (d : List Byte) (s : St) (h : Inv s
     cases v with
     | false =>
       simp only [Bool.false_eq_true, if_false]
-      by_cases hret : (addLoop d s).2.2 = .ret
-      · rw [if_pos hret]; exact ⟨r1, n, h1, h2⟩
-      · rw [if_neg hret]; exact ⟨r1, n, h1, h2⟩
+      cases hcons : s.console with
+      | true =>
+        simp only [if_true]
+        by_cases hret : (addLoop d s).2.2 = .ret
+        · rw [if_pos hret]; exact ⟨r1, n, h1, h2⟩
+        · rw [if_neg hret]
+          obtain ⟨p1, _, _⟩ := flushMsg_model r0
+          exact ⟨p1.histEq r1, n, h1, by rw [p1.histR]; exact h2⟩
+      | false =>
+        simp only [Bool.false_eq_true, if_false]
+        by_cases hret : (addLoop d s).2.2 = .ret
+        · rw [if_pos hret]; exact ⟨r1, n, h1, h2⟩
+        · rw [if_neg hret]; exact ⟨r1, n, h1, h2⟩
     | true =>
       simp only [if_true]
       by_cases h0 : (addLoop d s).1.len ≠ 0
@@ -50,11 +60,23 @@ theorem write_stores_prefix_image (v : Bool) (d : List Byte) (s : St) (h : Inv s
         exact ⟨p1.histEq r1, n, h1, by rw [p1.histR]; exact h2⟩
       · rw [if_neg h0]; exact ⟨r1, n, h1, h2⟩
 
-/-- `delivered_is_ordered_prefix_image`, state form: after every run, the bytes accepted by send() followed by the ring
-contents are exactly the bytes ever stored, in the order they were stored - nothing duplicated, nothing reordered; with
-`write_stores_prefix_image` the stored stream is the concatenation, write by write, of CR-LF images of prefixes of the
-texts. -/
-theorem sent_then_ring_is_stored (script : List SendRes) (ops : List Op) : HistEq (run script ops).1 := by
+/-- every operation preserves "stored = sent ++ ring" -/
+theorem step_histEq {s : St} (op : Op) (h : Inv s) (he : HistEq s) : HistEq (step s op).1 := by
+  have viaFlush : HistEq (flushMsg s).1 := (flushMsg_model h).1.histEq he
+  cases op with
+  | sendres rs => exact he
+  | write v d => exact (write_stores_prefix_image v d s h he).1
+  | flush => simp only [step]; split <;> first | exact he | exact viaFlush
+  | cycle => simp only [step]; split <;> first | exact he | exact viaFlush
+  | wready => simp only [step]; split <;> first | exact he | exact viaFlush
+  | close => simp only [step]; split <;> first | exact he | exact viaFlush
+  | peerfin => simp only [step]; split <;> exact he
+  | dump => exact he
+
+/-- state form of `delivered_is_ordered_prefix_image`: after every run, the bytes accepted by send() followed by the ring
+contents are exactly the bytes ever stored, in the order they were stored - nothing duplicated, nothing reordered. -/
+theorem sent_then_ring_is_stored (script : List SendRes) (ops : List Op) (console : Bool := false) :
+    HistEq (run script ops console).1 := by
   have key : ∀ (ops : List Op) (s : St) (j : J), GInv s → Rel s none j → HistEq s → HistEq (runFrom s ops).1 := by
     intro ops
     induction ops with
@@ -63,17 +85,158 @@ theorem sent_then_ring_is_stored (script : List SendRes) (ops : List Op) : HistE
       intro s j hgi hr he
       obtain ⟨a, b⟩ := step_spec op hgi hr
       simp only [runFrom]
-      refine ih _ _ a b ?_
-      have viaFlush : HistEq (flushMsg s).1 := (flushMsg_model hgi.inv).1.histEq he
-      cases op with
-      | sendres rs => exact he
-      | write v d => exact (write_stores_prefix_image v d s hgi.inv he).1
-      | flush => simp only [step]; split <;> first | exact he | exact viaFlush
-      | cycle => simp only [step]; split <;> first | exact he | exact viaFlush
-      | wready => simp only [step]; split <;> first | exact he | exact viaFlush
-      | close => simp only [step]; split <;> first | exact he | exact viaFlush
-      | peerfin => simp only [step]; split <;> exact he
-      | dump => exact he
-  exact key ops (St.init script) {} (init_ginv script) (init_rel script) rfl
+      exact ih _ _ a b (step_histEq op hgi.inv he)
+  exact key ops (St.init script console) {} (init_ginv script console) (init_rel script console) rfl
+
+end NV.C14
+
+namespace NV.C14
+
+/-- the texts handed to add_message / add_vmessage by an op list, in order -/
+def writesOf : List Op → List (List Byte)
+  | [] => []
+  | .write _ d :: ops => d :: writesOf ops
+  | _ :: ops => writesOf ops
+
+/-- for every write of a run: the state it started from, and its text -/
+def preStates : St → List Op → List (St × List Byte)
+  | _, [] => []
+  | s, .write v d :: ops => (s, d) :: preStates (step s (.write v d)).1 ops
+  | s, op :: ops => preStates (step s op).1 ops
+
+theorem preStates_texts (s : St) (ops : List Op) : (preStates s ops).map (·.2) = writesOf ops := by
+  induction ops generalizing s with
+  | nil => rfl
+  | cons op ops ih => cases op <;> simp [preStates, writesOf, ih]
+
+/-- `R` holds between the elements of two lists of equal length, position by position -/
+inductive ForallTwo {α β : Type} (R : α → β → Prop) : List α → List β → Prop
+  | nil : ForallTwo R [] []
+  | cons {a b as bs} : R a b → ForallTwo R as bs → ForallTwo R (a :: as) (b :: bs)
+
+theorem ForallTwo.length_eq {α β : Type} {R : α → β → Prop} {as : List α} {bs : List β} (h : ForallTwo R as bs) :
+    as.length = bs.length := by
+  induction h with
+  | nil => rfl
+  | cons _ _ ih => simp [ih]
+
+/-- `n` bytes of text `w`, written from state `pre`, were kept: all of it, unless the connection was (or became) unusable
+or the ring, after the flush attempt that did not drain enough, had no room for the next item `w[n]` -/
+def TailLossOK (pre : St) (w : List Byte) (n : Nat) : Prop :=
+  n ≤ w.length ∧
+  (n < w.length →
+    pre.gone = true ∨ (addLoop w pre).1.gone = true ∨
+    ∃ c, w[n]? = some c ∧ N < (addLoop w pre).1.len + itemLen c)
+
+theorem write_prefix_full (v : Bool) (d : List Byte) (s : St) (h : Inv s) (he : HistEq s) :
+    ∃ n, TailLossOK s d n ∧ (addMessage v d s).1.histR.reverse = s.histR.reverse ++ expand (d.take n) := by
+  unfold addMessage
+  cases hg : s.gone with
+  | true =>
+    simp only [if_true]
+    exact ⟨0, ⟨Nat.zero_le _, fun _ => Or.inl hg⟩, by simp [expand]⟩
+  | false =>
+    simp only [Bool.false_eq_true, if_false]
+    obtain ⟨r0, r1, n, h1, h2, h3, h4, h5⟩ := addLoop_hist d s h hg he
+    have hcond : TailLossOK s d n := by
+      refine ⟨h1, fun hlt => ?_⟩
+      cases hgo : (addLoop d s).2.2 with
+      | go => have := h3 hgo; omega
+      | brk => exact Or.inr (Or.inr (h4 hgo).2)
+      | ret => exact Or.inr (Or.inl (h5 hgo))
+    refine ⟨n, hcond, ?_⟩
+    cases v with
+    | false =>
+      simp only [Bool.false_eq_true, if_false]
+      cases hcons : s.console with
+      | true =>
+        simp only [if_true]
+        by_cases hret : (addLoop d s).2.2 = .ret
+        · rw [if_pos hret]; exact h2
+        · rw [if_neg hret]
+          obtain ⟨p1, _, _⟩ := flushMsg_model r0
+          rw [p1.histR]; exact h2
+      | false =>
+        simp only [Bool.false_eq_true, if_false]
+        by_cases hret : (addLoop d s).2.2 = .ret
+        · rw [if_pos hret]; exact h2
+        · rw [if_neg hret]; exact h2
+    | true =>
+      simp only [if_true]
+      by_cases h0 : (addLoop d s).1.len ≠ 0
+      · rw [if_pos h0]
+        obtain ⟨p1, _, _⟩ := flushMsg_model r0
+        rw [p1.histR]; exact h2
+      · rw [if_neg h0]; exact h2
+
+/-- operations other than writes store nothing -/
+theorem step_histR_of_not_write {s : St} (h : Inv s) (op : Op) (hw : ∀ v d, op ≠ .write v d) :
+    (step s op).1.histR = s.histR := by
+  have viaFlush : (flushMsg s).1.histR = s.histR := (flushMsg_model h).1.histR
+  cases op with
+  | sendres rs => rfl
+  | write v d => exact absurd rfl (hw v d)
+  | flush => simp only [step]; split <;> first | rfl | exact viaFlush
+  | cycle => simp only [step]; split <;> first | rfl | exact viaFlush
+  | wready => simp only [step]; split <;> first | rfl | exact viaFlush
+  | close => simp only [step]; split <;> first | rfl | exact viaFlush
+  | peerfin => simp only [step]; split <;> rfl
+  | dump => rfl
+
+/-- **`delivered_is_ordered_prefix_image`.**  For every send script and every list of operations there are per-write prefix
+lengths `ns` - one for each text written, each the whole text unless the connection was unusable or the ring was still
+without room for the next item after the flush attempt (`TailLossOK`) - such that the bytes accepted by send() followed by
+the ring contents are exactly the concatenation, in write order, of the CR-LF images of those prefixes.  Nothing is
+duplicated, reordered or invented; only tails of individual messages can be missing. -/
+theorem delivered_is_ordered_prefix_image (script : List SendRes) (ops : List Op) (console : Bool := false) :
+    ∃ ns : List Nat,
+      ForallTwo (fun p n => TailLossOK p.1 p.2 n) (preStates (St.init script console) ops) ns ∧
+      (run script ops console).1.sentR.reverse ++ contents (run script ops console).1 =
+        (List.zipWith (fun p n => expand (p.2.take n)) (preStates (St.init script console) ops) ns).flatten := by
+  have key : ∀ (ops : List Op) (s : St) (j : J), GInv s → Rel s none j → HistEq s →
+      ∃ ns : List Nat, ForallTwo (fun p n => TailLossOK p.1 p.2 n) (preStates s ops) ns ∧
+        (runFrom s ops).1.histR.reverse =
+          s.histR.reverse ++ (List.zipWith (fun p n => expand (p.2.take n)) (preStates s ops) ns).flatten := by
+    intro ops
+    induction ops with
+    | nil => intro s j _ _ _; exact ⟨[], ForallTwo.nil, by simp [runFrom, preStates]⟩
+    | cons op ops ih =>
+      intro s j hgi hr he
+      obtain ⟨a, b⟩ := step_spec op hgi hr
+      by_cases hw : ∃ v d, op = .write v d
+      · obtain ⟨v, d, rfl⟩ := hw
+        have he' : HistEq (step s (.write v d)).1 := (write_stores_prefix_image v d s hgi.inv he).1
+        obtain ⟨n, hc, hn⟩ := write_prefix_full v d s hgi.inv he
+        obtain ⟨ns, f, e⟩ := ih _ _ a b he'
+        refine ⟨n :: ns, ?_, ?_⟩
+        · simp only [preStates]; exact ForallTwo.cons hc f
+        · simp only [runFrom, preStates, List.zipWith_cons_cons, List.flatten_cons]
+          rw [e]
+          have : (step s (.write v d)).1.histR = (addMessage v d s).1.histR := rfl
+          rw [this, hn, List.append_assoc]
+      · have hnw : ∀ v d, op ≠ .write v d := fun v d h => hw ⟨v, d, h⟩
+        have hh := step_histR_of_not_write hgi.inv op hnw
+        have he' : HistEq (step s op).1 := step_histEq op hgi.inv he
+        obtain ⟨ns, f, e⟩ := ih _ _ a b he'
+        refine ⟨ns, ?_, ?_⟩
+        · cases op <;> first | exact f | exact absurd rfl (hnw _ _)
+        · simp only [runFrom]
+          rw [e, hh]
+          cases op <;> first | rfl | exact absurd rfl (hnw _ _)
+  obtain ⟨ns, f, e⟩ := key ops (St.init script console) {} (init_ginv script console) (init_rel script console) rfl
+  refine ⟨ns, f, ?_⟩
+  have hs := sent_then_ring_is_stored script ops console
+  unfold HistEq at hs
+  rw [← hs]
+  exact e
+
+/-- non-vacuity: two writes give two prefixes -/
+example (script : List SendRes) : ∃ ns : List Nat, ns.length = 2 := by
+  obtain ⟨ns, f, _⟩ := delivered_is_ordered_prefix_image script [.write false [65], .flush, .write true [10]]
+  exact ⟨ns, by have := f.length_eq; simpa [preStates] using this.symm⟩
+
+/-- the prefixes are taken from exactly the texts written, in order -/
+theorem delivered_texts (script : List SendRes) (ops : List Op) (console : Bool := false) :
+    (preStates (St.init script console) ops).map (·.2) = writesOf ops := preStates_texts _ _
 
 end NV.C14
